@@ -46,6 +46,7 @@ struct ValDef {
   u8 size = 0;    // bytes: G 1/2/4/8, V 16/32/64, D 8, K 1/2/4/8
   u8 local = 0;   // block-local temporary (defined and used inside one block)
   u8 dumped = 0;  // stored to the dump area in the final block (observable)
+  u8 sgn = 0;     // GP virtual register created with a signed type id (matters only when a narrower signed parameter is bound to it)
   u8 half = 0;    // 128-bit vector register bound to a double parameter: only the low 8 bytes are ever defined/used
 };
 
@@ -392,7 +393,7 @@ struct IVal { u8 b[64]; u64 def; };
 
 struct RunInput {
   u8 data[DATA_SIZE];
-  u64 iargs[16];    // integer arguments a1..a16
+  u64 iargs[20];    // integer arguments a1..a20 (always passed as full 64-bit values: the bits above a narrow parameter are junk)
   u64 dargs[17];    // double arguments (bit patterns)
 };
 
@@ -405,8 +406,11 @@ struct RunResult {
 
 // number/kind of function arguments after the buffer pointer per signature class
 // (Globals::kMaxFuncArgs = 32 limits a signature to 31 parameters after the buffer pointer)
-struct SigClass { int ni; u8 isz[16]; int nd; };
-static const int NSIGCLASS = 6;
+// isz: parameter size in bytes, +16 = signed (int8/int16/int32 instead of uint8/uint16/uint32)
+struct SigClass { int ni; u8 isz[20]; int nd; };
+static const int NSIGCLASS = 7;
+static inline int psize(u8 t) { return t & 15; }
+static inline bool psigned(u8 t) { return (t & 16) != 0; }
 static const SigClass kSigClasses[NSIGCLASS] = {
   { 0, {0}, 0 },
   { 3, {8, 4, 8}, 0 },
@@ -414,6 +418,8 @@ static const SigClass kSigClasses[NSIGCLASS] = {
   { 14, {8, 4, 8, 8, 4, 8, 4, 8, 8, 4, 8, 8, 4, 8}, 17 },        // 9 integer and 9 double parameters on the stack (SysV x86-64)
   { 15, {8, 8, 4, 8, 4, 8, 8, 4, 8, 8, 4, 8, 4, 8, 8}, 10 },
   { 4, {8, 4, 8, 8}, 12 },
+  // 20 narrow integer parameters (14 of them in 8-byte stack slots whose upper bytes are undefined)
+  { 20, {4, 20, 1, 18, 2, 17, 4, 20, 20, 4, 2, 18, 4, 20, 1, 17, 4, 20, 4, 20}, 0 },
 };
 
 struct Interp {
@@ -1074,7 +1080,13 @@ struct Interp {
     for (size_t i = 0; i < P.argbind.size(); i++) {
       int vi = P.argbind[i];
       if (vi < 0) continue;
-      if ((int)i < sc.ni) SG(vi, sc.isz[i], in.iargs[i]);
+      if ((int)i < sc.ni) {
+        // a narrow parameter bound to a wider virtual register is zero extended, or sign extended when parameter and register are signed
+        int ps = psize(sc.isz[i]), vs = P.vals[vi].size;
+        u64 x = in.iargs[i] & maskw(ps);
+        if (vs > ps && psigned(sc.isz[i]) && P.vals[vi].sgn) x = (u64)sextw(x, ps);
+        SG(vi, vs, x);
+      }
       else if (P.vals[vi].kind == KIND_V) {
         // double parameter bound to a wider (128-bit) virtual register: only the low 8 bytes are defined
         memcpy(v[vi].b, &in.dargs[i - sc.ni], 8); v[vi].def |= 0xFF;
@@ -2220,7 +2232,7 @@ static u64 shape_count() {
 
 static bool g_keep_unreachable = true;
 // constructs the generator avoids (set by the Python side when the corresponding probe shows a defect)
-enum : u32 { AV_CMPXCHG = 1, AV_SAMEREG_NARROW = 2, AV_RMW32_ON64 = 4, AV_HI8 = 8, AV_KMOVW_TOG = 16, AV_VECARG_AVX512 = 32, AV_OR_MEM_M1 = 64, AV_AND_ZERO = 128, AV_A64_TBL_MULTI = 256, AV_SAMEREG_NARROW_VEC = 512, AV_TERN_MASKED = 1024, AV_HINT_VIEWS = 2048, AV_BT_REGIDX = 4096, AV_GATHER = 8192 };
+enum : u32 { AV_CMPXCHG = 1, AV_SAMEREG_NARROW = 2, AV_RMW32_ON64 = 4, AV_HI8 = 8, AV_KMOVW_TOG = 16, AV_VECARG_AVX512 = 32, AV_OR_MEM_M1 = 64, AV_AND_ZERO = 128, AV_A64_TBL_MULTI = 256, AV_SAMEREG_NARROW_VEC = 512, AV_TERN_MASKED = 1024, AV_HINT_VIEWS = 2048, AV_BT_REGIDX = 4096, AV_GATHER = 8192, AV_NARROW_PARAM_WIDE_VREG = 16384 };
 u32 g_avoid_fwd = 0;
 #define g_avoid g_avoid_fwd
 
@@ -2255,7 +2267,7 @@ static Program gen_program(Rng& r, const Profile& pf, i64 shape_idx) {
   P.use_stack = !a64 && (int)r.below(100) < pf.stack_pct;
   P.sigclass = (u8)r.below(3);
   if (a64 && P.sigclass == 2) P.sigclass = 1;
-  if (!a64 && r.chance(1, 3)) P.sigclass = (u8)(3 + r.below(3));   // many parameters: most of them arrive on the stack
+  if (!a64 && r.chance(1, 3)) P.sigclass = (u8)(3 + r.below(4));   // many parameters: most of them arrive on the stack
   P.preserved_fp = !a64 && r.chance(1, 4);
   P.cconv = (u8)r.below(4);
   P.fuel_init = (int)r.range(6, 40);
@@ -2265,6 +2277,19 @@ static Program gen_program(Rng& r, const Profile& pf, i64 shape_idx) {
   int entry = g.new_block();
   const SigClass& sc = kSigClasses[P.sigclass];
   P.argbind.assign(sc.ni + sc.nd, -1);
+  // many narrow integer parameters, all live on entry (more than there are registers), bound to equal or wider virtual registers
+  if (!a64 && sc.ni >= 14 && r.chance(1, 2)) {
+    for (int a = 0; a < sc.ni && P.vals.size() < 240; a++) {
+      int ps = psize(sc.isz[a]);
+      if (x32 && ps == 8) continue;
+      if ((g_avoid_fwd & 16384) && ps < 4) continue;
+      int vs = ps;
+      if (!(g_avoid_fwd & 16384) && r.chance(1, 2)) { vs = x32 ? 4 : (r.chance(2, 3) ? 8 : 4); if (vs < ps) vs = ps; }
+      int vi = g.new_val(KIND_G, (u8)vs, false, true);
+      P.vals[vi].sgn = psigned(sc.isz[a]);
+      P.argbind[a] = vi;
+    }
+  }
   // double parameters bound to a 128-bit virtual register (wider than the parameter): a stack-passed one cannot use the caller's slot as its home
   if (!a64 && sc.nd > 0 && !((g_avoid_fwd & 32) && P.mode == MODE_AVX512)) {
     for (int a = sc.nd - 1; a >= 0 && P.vals.size() < 240; a--) {
@@ -2296,7 +2321,14 @@ static Program gen_program(Rng& r, const Profile& pf, i64 shape_idx) {
         // function argument?
         bool bound = false;
         if (r.chance(1, 3)) {
-          for (int a = 0; a < sc.ni; a++) if (P.argbind[a] < 0 && sc.isz[a] == d.size) { P.argbind[a] = vi; bound = true; break; }
+          bool wider_ok = r.chance(1, 2) && !(g_avoid_fwd & 16384);
+          for (int a = 0; a < sc.ni; a++) {
+            int ps = psize(sc.isz[a]);
+            if (P.argbind[a] >= 0 || !(ps == d.size || (wider_ok && ps < d.size))) continue;
+            if (x32 && ps == 8) continue;
+            if ((g_avoid_fwd & 16384) && ps < 4) continue;
+            P.argbind[a] = vi; P.vals[vi].sgn = psigned(sc.isz[a]); bound = true; break;
+          }
         }
         if (bound) continue;
         q.opc = O_MOV; q.w = d.size; q.d = vi;
@@ -2442,7 +2474,7 @@ static std::string serialise(const Program& P) {
   s += "vals:";
   for (size_t i = 0; i < P.vals.size(); i++) {
     const ValDef& d = P.vals[i];
-    snprintf(b, sizeof b, " v%zu=%c%d%s%s", i, "gvdk"[d.kind], d.size * 8, d.half ? "h" : (d.local ? "t" : ""), d.dumped ? "*" : "");
+    snprintf(b, sizeof b, " v%zu=%c%d%s%s", i, "gvdk"[d.kind], d.size * 8, d.half ? "h" : (d.local ? "t" : (d.sgn ? "s" : "")), d.dumped ? "*" : "");
     s += b;
   }
   s += "\nargs:";
@@ -2906,7 +2938,11 @@ struct X86Emitter {
     }
     sig.add_arg(TypeId::kUIntPtr);
     const SigClass& sc = kSigClasses[P.sigclass];
-    for (int i = 0; i < sc.ni; i++) sig.add_arg(sc.isz[i] == 8 && is64 ? TypeId::kUInt64 : TypeId::kUInt32);
+    for (int i = 0; i < sc.ni; i++) {
+      int ps = psize(sc.isz[i]); bool sg = psigned(sc.isz[i]);
+      sig.add_arg(ps == 1 ? (sg ? TypeId::kInt8 : TypeId::kUInt8) : ps == 2 ? (sg ? TypeId::kInt16 : TypeId::kUInt16) :
+                  (ps == 4 || !is64) ? (sg ? TypeId::kInt32 : TypeId::kUInt32) : TypeId::kUInt64);
+    }
     for (int i = 0; i < sc.nd; i++) sig.add_arg(TypeId::kFloat64);
 
     FuncNode* fn = cc.add_func(sig);
@@ -2927,7 +2963,10 @@ struct X86Emitter {
       const ValDef& d = P.vals[i];
       char nm[24]; snprintf(nm, sizeof nm, "v%zu", i);
       switch (d.kind) {
-        case KIND_G: regs[i] = d.size == 1 ? cc.new_gp8(nm) : d.size == 2 ? cc.new_gp16(nm) : d.size == 4 ? cc.new_gp32(nm) : cc.new_gp64(nm); break;
+        case KIND_G:
+          if (d.sgn) regs[i] = cc.new_gp(d.size == 1 ? TypeId::kInt8 : d.size == 2 ? TypeId::kInt16 : d.size == 4 ? TypeId::kInt32 : TypeId::kInt64, nm);
+          else regs[i] = d.size == 1 ? cc.new_gp8(nm) : d.size == 2 ? cc.new_gp16(nm) : d.size == 4 ? cc.new_gp32(nm) : cc.new_gp64(nm);
+          break;
         case KIND_V: regs[i] = d.size == 16 ? cc.new_xmm(nm) : d.size == 32 ? cc.new_ymm(nm) : cc.new_zmm(nm); break;
         case KIND_D: regs[i] = cc.new_xmm_sd(nm); break;
         default: regs[i] = d.size == 1 ? cc.new_kb(nm) : d.size == 2 ? cc.new_kw(nm) : d.size == 4 ? cc.new_kd(nm) : cc.new_kq(nm); break;
@@ -3007,11 +3046,11 @@ static void init_exec_env() {
 }
 
 typedef u64 (*FnI0)(u8*);
-typedef u64 (*FnI1)(u8*, u64, u32, u64);
-typedef u64 (*FnI2)(u8*, u64, u32, u64, u64, u32, u64, u32, u64, double, double, double, double, double, double, double, double, double);
+typedef u64 (*FnI1)(u8*, u64, u64, u64);
+typedef u64 (*FnI2)(u8*, u64, u64, u64, u64, u64, u64, u64, u64, double, double, double, double, double, double, double, double, double);
 typedef double (*FnD0)(u8*);
-typedef double (*FnD1)(u8*, u64, u32, u64);
-typedef double (*FnD2)(u8*, u64, u32, u64, u64, u32, u64, u32, u64, double, double, double, double, double, double, double, double, double);
+typedef double (*FnD1)(u8*, u64, u64, u64);
+typedef double (*FnD2)(u8*, u64, u64, u64, u64, u64, u64, u64, u64, double, double, double, double, double, double, double, double, double);
 
 #define D4 double, double, double, double
 typedef u64 (*FnI3)(u8*, u64, u64, u64, u64, u64, u64, u64, u64, u64, u64, u64, u64, u64, u64, D4, D4, D4, D4, double);
@@ -3032,19 +3071,24 @@ static NOSAN u64 call_native(void* fn, int sigclass, bool retd, u8* buf, const R
   if (sigclass == 3) return retd ? dbits(((FnD3)fn)(buf, A14, DD8, d[8], d[9], d[10], d[11], d[12], d[13], d[14], d[15], d[16]))
                                  : ((FnI3)fn)(buf, A14, DD8, d[8], d[9], d[10], d[11], d[12], d[13], d[14], d[15], d[16]);
   if (sigclass == 4) return retd ? dbits(((FnD4)fn)(buf, A14, a[14], DD8, d[8], d[9])) : ((FnI4)fn)(buf, A14, a[14], DD8, d[8], d[9]);
+  if (sigclass == 6) {
+    typedef u64 (*FnI6)(u8*, u64, u64, u64, u64, u64, u64, u64, u64, u64, u64, u64, u64, u64, u64, u64, u64, u64, u64, u64, u64);
+    typedef double (*FnD6)(u8*, u64, u64, u64, u64, u64, u64, u64, u64, u64, u64, u64, u64, u64, u64, u64, u64, u64, u64, u64, u64);
+    return retd ? dbits(((FnD6)fn)(buf, A14, a[14], a[15], a[16], a[17], a[18], a[19])) : ((FnI6)fn)(buf, A14, a[14], a[15], a[16], a[17], a[18], a[19]);
+  }
   if (sigclass == 5) return retd ? dbits(((FnD5)fn)(buf, a[0], a[1], a[2], a[3], DD8, d[8], d[9], d[10], d[11]))
                                  : ((FnI5)fn)(buf, a[0], a[1], a[2], a[3], DD8, d[8], d[9], d[10], d[11]);
   if (!retd) {
     switch (sigclass) {
       case 0: return ((FnI0)fn)(buf);
-      case 1: return ((FnI1)fn)(buf, a[0], (u32)a[1], a[2]);
-      default: return ((FnI2)fn)(buf, a[0], (u32)a[1], a[2], a[3], (u32)a[4], a[5], (u32)a[6], a[7], d[0], d[1], d[2], d[3], d[4], d[5], d[6], d[7], d[8]);
+      case 1: return ((FnI1)fn)(buf, a[0], a[1], a[2]);
+      default: return ((FnI2)fn)(buf, a[0], a[1], a[2], a[3], a[4], a[5], a[6], a[7], d[0], d[1], d[2], d[3], d[4], d[5], d[6], d[7], d[8]);
     }
   }
   switch (sigclass) {
     case 0: return dbits(((FnD0)fn)(buf));
-    case 1: return dbits(((FnD1)fn)(buf, a[0], (u32)a[1], a[2]));
-    default: return dbits(((FnD2)fn)(buf, a[0], (u32)a[1], a[2], a[3], (u32)a[4], a[5], (u32)a[6], a[7], d[0], d[1], d[2], d[3], d[4], d[5], d[6], d[7], d[8]));
+    case 1: return dbits(((FnD1)fn)(buf, a[0], a[1], a[2]));
+    default: return dbits(((FnD2)fn)(buf, a[0], a[1], a[2], a[3], a[4], a[5], a[6], a[7], d[0], d[1], d[2], d[3], d[4], d[5], d[6], d[7], d[8]));
   }
 }
 
@@ -3234,7 +3278,7 @@ static void make_inputs(Rng& r, int n, std::vector<RunInput>& out) {
         break;
       }
     }
-    for (int i = 0; i < 16; i++) in.iargs[i] = fill == 2 ? (r.chance(1, 4) ? r.below(64) : r.next()) : fill + (fill == 1 ? i : 0);
+    for (int i = 0; i < 20; i++) in.iargs[i] = fill == 2 ? (r.chance(1, 4) ? r.below(64) : r.next()) : fill + (fill == 1 ? i : 0);
     for (int i = 0; i < 17; i++) in.dargs[i] = fill == 2 ? r.next() : (fill ^ ((u64)i << 52));
   }
 }
@@ -3551,7 +3595,7 @@ static std::string json_map(const std::map<std::string, u64>& m) {
 
 static std::string input_to_string(const RunInput& in) {
   std::string s = "data=" + hexstr(in.data, DATA_SIZE) + " iargs=";
-  for (int i = 0; i < 16; i++) { char b[32]; snprintf(b, sizeof b, "%llx,", (unsigned long long)in.iargs[i]); s += b; }
+  for (int i = 0; i < 20; i++) { char b[32]; snprintf(b, sizeof b, "%llx,", (unsigned long long)in.iargs[i]); s += b; }
   s += " dargs=";
   for (int i = 0; i < 17; i++) { char b[32]; snprintf(b, sizeof b, "%llx,", (unsigned long long)in.dargs[i]); s += b; }
   return s;
@@ -3757,7 +3801,7 @@ struct A64Emitter {
     else { const ValDef& d = P.vals[P.retval]; sig.set_ret(d.kind == KIND_D ? TypeId::kFloat64 : d.size == 4 ? TypeId::kUInt32 : TypeId::kUInt64); }
     sig.add_arg(TypeId::kUIntPtr);
     const SigClass& sc = kSigClasses[P.sigclass];
-    for (int i = 0; i < sc.ni; i++) sig.add_arg(sc.isz[i] == 8 ? TypeId::kUInt64 : TypeId::kUInt32);
+    for (int i = 0; i < sc.ni; i++) sig.add_arg(psize(sc.isz[i]) == 8 ? TypeId::kUInt64 : TypeId::kUInt32);
     for (int i = 0; i < sc.nd; i++) sig.add_arg(TypeId::kFloat64);
     FuncNode* fn = cc.add_func(sig);
     if (!fn) return;
@@ -4335,6 +4379,7 @@ static const ProbeDef kProbes[] = {
   { "relocated-stack-argument-with-call-area", 0, false, "a stack-passed parameter relocated into a local slot (wider virtual register / realigned frame) must be stored where the body reads it, also when the function has a call-argument area" },
   { "bt-register-base-spilled", AV_BT_REGIDX, false, "bt/bts/btr/btc reg,reg: the bit-base register is replaced by its spill slot, where a bit index >= width addresses memory outside the slot instead of wrapping" },
   { "gather-mask-written", AV_GATHER, true, "vpgatherdd zmm{k}: the mask register is cleared by the instruction but the allocator treats it as read-only" },
+  { "narrow-stack-parameter-bound-to-wide-vreg", AV_NARROW_PARAM_WIDE_VREG, false, "a stack-passed narrow integer parameter that gets no register on entry is moved stack-to-stack with the wrong store width: bound to a 64-bit virtual register only 4 bytes of the home slot are written (no zero/sign extension), bound to an 8/16-bit register 4 bytes are written into the 1/2-byte slot" },
   { "unreachable-predecessor", 0x80000000u, false, "an unreachable block that flows into a reachable loop crashes the liveness analysis" },
 };
 static const int kNProbes = sizeof(kProbes) / sizeof(kProbes[0]);
@@ -4444,6 +4489,19 @@ static Program build_probe(const std::string& name) {
     b.finish(-1);
     return b.P;
   }
+  if (name == "narrow-stack-parameter-bound-to-wide-vreg") {
+    ProbeBuilder b(MODE_SSE, 6);
+    const SigClass& sc = kSigClasses[6];
+    // parameters 11, 12, 15, 16 (u16, i16, u8, i8) keep their own width (their 1/2-byte home slots must not be written with a 32-bit store),
+    // all others are bound to 64-bit virtual registers (the whole 8-byte home slot must hold the extended value)
+    for (int a = 0; a < sc.ni; a++) {
+      int ps = psize(sc.isz[a]);
+      int vi = b.val(KIND_G, (u8)((ps < 4 && a >= 10) ? ps : 8));
+      b.P.vals[vi].sgn = psigned(sc.isz[a]); b.P.argbind[a] = vi;
+    }
+    b.finish(b.P.argbind[19]);
+    return b.P;
+  }
   if (name == "ret-before-embedded-data") {
     ProbeBuilder b;
     int x = b.val(KIND_G, 8), y = b.val(KIND_G, 8);
@@ -4466,7 +4524,7 @@ static Program build_probe(const std::string& name) {
       else vi = b.val(KIND_D, 8);
       b.P.argbind[sc.ni + a] = vi;
     }
-    for (int a = 6; a < sc.ni; a++) { int vi = b.val(KIND_G, sc.isz[a]); b.P.argbind[a] = vi; }   // stack-passed integers
+    for (int a = 6; a < sc.ni; a++) { int vi = b.val(KIND_G, (u8)psize(sc.isz[a])); b.P.argbind[a] = vi; }   // stack-passed integers
     std::vector<int> y;
     for (int i = 0; i < 10; i++) { y.push_back(b.val(KIND_V, 32)); b.load(y.back(), 32 * i); }    // 32-byte spill slots: realigned frame
     { Op o; o.opc = O_CALL; o.imm = NCALLEE_OLD; for (int k = 0; k < g_sigs[NCALLEE_OLD].n; k++) o.args.push_back(SI(1000 + k)); b.ops().push_back(o); }
